@@ -370,9 +370,13 @@ def default_return(mod, name, args):
                 "proc_io_priority_get", "getpriority", "proc_memory_uss", "cpu_count_logical",
                 "cpu_count_cores", "boot_time", "proc_username"):
         return 3
+    if name == "per_cpu_times":
+        # four CPUs (cpu_affinity_set() validates its argument against them)
+        width = 5 if family() in ("bsd", "windows") else 4
+        return [tuple(float(i + j) for j in range(width)) for i in range(4)]
     if name in ("proc_threads", "proc_open_files", "proc_net_connections", "net_connections",
                 "proc_memory_maps", "proc_cpu_affinity_get", "net_if_addrs", "disk_partitions", "users",
-                "per_cpu_times", "proc_getrlimit"):
+                "proc_getrlimit"):
         return []
     if name in ("setpriority", "proc_priority_set", "proc_io_priority_set", "proc_cpu_affinity_set",
                 "proc_setrlimit", "proc_suspend_or_resume", "proc_kill", "set_debug"):
@@ -661,6 +665,11 @@ def run_child_case(case):
                                 f"{desc}: raised {e!r}; an unrelated OS error must propagate unchanged")
             if isinstance(e, (AttributeError, TypeError, KeyError, IndexError)):
                 raise Violation("other-error-crashes", f"{desc}: raised {e!r}")
+            same_os_error = (isinstance(e, OSError) and e.errno == getattr(PLAN.exc, "errno", None)
+                             and getattr(e, "winerror", None) == getattr(PLAN.exc, "winerror", None))
+            if not same_os_error:
+                raise Violation("other-error-converted",
+                                f"{desc}: raised {e!r} instead of letting {PLAN.exc!r} through unchanged")
         return Result([f"{PLATFORM}:propagated"], f"{PLATFORM}|{m}|{err}|propagated")
 
     if kind == "procfs-fault":
@@ -909,6 +918,27 @@ def child_main(argv):
         tier, seed, per, out = argv[1], int(argv[2]), int(argv[3]), argv[4]
         shard = sorted(PLATFORMS).index(PLATFORM)
         stats = runner._run_shard(PROP, tier, seed, shard, len(PLATFORMS), per)
+        # ---- enumeration of the core fault space of this platform: every
+        # method x errno x native-call index (the other dimensions follow the
+        # combination number), so that no (method, errno, index) is left to luck
+        _ps, _plat, methods = booted()
+        errs = list(ERRNOS) + (list(WINERRORS) if PLATFORM == "windows" else [])
+        n = 0
+        for mi in range(len(methods)):
+            for err in errs:
+                for at in (0, 1, 2, 3):
+                    n += 1
+                    case = dict(kind="fault", method=mi, err=err, at=at, zombie=bool((n + seed) % 3 == 0),
+                                sdead=bool(n % 2), cached_name=[None, "cached-name"][(n + seed) % 2],
+                                pid=PID if (n + seed) % 5 else 0, pid0_listed=bool((n + seed) % 2),
+                                platform=PLATFORM)
+                    try:
+                        res = PROP.run_case(case)
+                    except runner.Violation as v:
+                        stats.fail(case, v)
+                        break
+                    stats.record(case, res, keep_sample=False)
+        stats.notes["fault_combinations_enumerated_" + PLATFORM] = n
         with open(out, "wb") as f:
             pickle.dump(stats, f)
         sys.exit(0)
